@@ -4,3 +4,5 @@ H(id='C11_vtmf_card_text', property='C11', src='C11_roundtrip.cc', entry='h_vtmf
   desc='VTMF_Card: operator<< -> import -> operator<< identity (real base-62 text, real parser)', symbolic='one card component in [0, 62) (one base-62 digit), the other fixed by the slice (quick); both components in [0, 62) (thorough)',
   bounds='thorough tier only (7-15 min per query): one symbolic component with the other 1234 resp. 0, and both symbolic single-digit',
   slices=[{'H_FIX2': 1234, 'H_VMAX': 62}, {'H_FIX1': 0, 'H_VMAX': 62}, {'H_VMAX': 62}])
+# h_tmcg_card_resize (C11_roundtrip.cc): TMCG_Card::resize / operator= on used objects of other shapes - SAT back end out of memory at 6 GB for every
+# shape tried (three vector<vector<MP_INT>> objects); not registered.
